@@ -13,6 +13,14 @@ onto the calls it makes on the cell (`toCell`; an emission under a local recorde
 cell step machine (`Model/OnceCell.lean`), and what the API user observes is read back with `observe`.
 The shape of the two functions (branch order, the single forward, no other use of the global cell, no other
 thread-local) is pinned by the translator (`Generated.global_*`, theorem `C02.src_global_layer`).
+
+Round 3 — what happens INSIDE and AFTER `f(recorder)`: the call into the recorder may panic (the panic unwinds
+through `with_recorder` and is caught by the caller, which goes on emitting), and the recorder (or the closure
+handed to `with_recorder`) may emit again while the outer dispatch is on the stack. Because the layer keeps
+nothing across a call, a panicking emission projects onto the cell exactly like a plain one (`emitPanic` ↦ one
+lookup), and an emission from inside a dispatched call is one more lookup of the same thread — made only if the
+enclosing lookup found a recorder (`Call.nested`, `settle` in Model/OnceCell.lean: the no-op recorder emits
+nothing). Pinned by `C02.src_dispatch_is_bare_call`.
 -/
 namespace MetricsVerif.GlobalRec
 open MetricsVerif.OnceCell
@@ -22,6 +30,15 @@ inductive GCall
   | install (r : Nat)        -- `set_global_recorder(recorder r)`
   | emit                     -- an emission (macro / `with_recorder`) with no local recorder installed
   | emitLocal (l : Nat)      -- an emission inside `with_local_recorder(&l, ..)`
+  | emitPanic                -- an emission (no local recorder) whose call into the recorder PANICS if it reaches a
+                             -- real recorder; the panic unwinds through `with_recorder` and is caught by the
+                             -- caller (`catch_unwind`, a worker pool, an async runtime), the thread goes on
+  | emitNested (k : Nat)     -- an emission (no local recorder) handled by a recorder that emits again from INSIDE
+                             -- the call, `k` levels deep (an exporter counting its own registrations)
+  | emitIn                   -- `with_recorder(|r| { r.…; <a second emission> })`: the closure handed to
+                             -- `with_recorder` emits while the outer dispatch is still on the stack
+  | emitLocalPanic (l : Nat) -- an emission inside `with_local_recorder(&l, ..)` whose recorder panics; the panic
+                             -- unwinds through `with_recorder` AND the local scope and is caught outside it
   deriving Repr, DecidableEq
 
 /-- where an emission is dispatched -/
@@ -41,6 +58,8 @@ def dispatch (loc : Option Nat) (g : Res) : Target :=
 /-- what the API user observes for one call -/
 inductive GRes
   | installed | rejected (r : Nat) | sent (t : Target)
+  | unwound (t : Target)          -- dispatched to `t`, whose method panicked; caught by the caller
+  | sentAll (ts : List Target)    -- outer emission first, then the emissions made from inside it
   deriving Repr, DecidableEq
 
 /-- the calls a thread makes on the global cell -/
@@ -49,6 +68,10 @@ def toCell : List GCall → List Call
   | .install r :: cs => .set r :: toCell cs
   | .emit :: cs => .load :: toCell cs
   | .emitLocal _ :: cs => toCell cs
+  | .emitPanic :: cs => .load :: toCell cs
+  | .emitNested k :: cs => .load :: (List.replicate k .nested ++ toCell cs)
+  | .emitIn :: cs => .load :: .load :: toCell cs
+  | .emitLocalPanic _ :: cs => toCell cs
 
 /-- observation of a completed cell call (no local recorder in scope) -/
 def ofRes : Res → GRes
@@ -56,11 +79,31 @@ def ofRes : Res → GRes
   | .err r => .rejected r
   | r => .sent (dispatch none r)
 
+/-- observation of a completed lookup whose dispatched call panics when it reaches a real recorder
+    (`with_recorder` has no state and no clean-up of its own: the unwinding changes nothing) -/
+def ofResPanic : Res → GRes
+  | .some r => .unwound (.global r)
+  | r => ofRes r
+
+/-- the answers belonging to one emission with up to `n` lookups, each made only if the one before it
+    answered `Some`; and the answers that are left -/
+def takeNested : Nat → List Res → List Res × List Res
+  | 0, rs => ([], rs)
+  | _ + 1, [] => ([], [])
+  | n + 1, r :: rs =>
+    if r.isSome then ((r :: (takeNested n rs).1), (takeNested n rs).2) else ([r], rs)
+
 /-- a thread's observations: its program walked along the answers of its cell calls (oldest first) -/
 def observe : List GCall → List Res → List GRes
   | [], _ => []
   | .emitLocal l :: cs, rs => .sent (dispatch (some l) .none) :: observe cs rs
+  | .emitLocalPanic l :: cs, rs => .unwound (dispatch (some l) .none) :: observe cs rs
   | _ :: _, [] => []
+  | .emitPanic :: cs, r :: rs => ofResPanic r :: observe cs rs
+  | .emitNested k :: cs, r :: rs =>
+    .sentAll ((takeNested (k + 1) (r :: rs)).1.map (dispatch none)) :: observe cs (takeNested (k + 1) (r :: rs)).2
+  | .emitIn :: _, [_] => []
+  | .emitIn :: cs, r₁ :: r₂ :: rs => .sentAll [dispatch none r₁, dispatch none r₂] :: observe cs rs
   | _ :: cs, r :: rs => ofRes r :: observe cs rs
 
 /-- the process: every thread's API program projected onto the cell machine -/
